@@ -208,8 +208,41 @@ func GenTables(repo, out string) error {
 	b.WriteString("]\n\n")
 	fmt.Fprintf(&b, "def nrows : Nat := %d\n\nend Gotree.Gen.C19Flags\n", len(rows))
 	p := filepath.Join(out, "C19Flags.lean")
+	if old, err := os.ReadFile(p); err != nil || string(old) != b.String() { // unchanged: keep the mtime so that lake does not rebuild
+		if err := os.WriteFile(p, []byte(b.String()), 0644); err != nil {
+			return err
+		}
+	}
+	return genWrites(repo, out)
+}
+
+// genWrites writes lean/Gotree/Gen/C19Writes.lean: table (e), the assignments to option variables
+// made after parsing (writes.go; read off the SOURCE of `repo`, unlike the flag table).
+func genWrites(repo, out string) error {
+	ws, problems := optionWrites(repo)
+	var b strings.Builder
+	b.WriteString("-- GENERATED by harness/c19/writes.go (`vh gen-tables`) from the source of cmd/*.go; do not edit.\n")
+	b.WriteString("-- One row per assignment `v = …` to a flag-bound package variable inside a command body or a helper it calls.\n")
+	b.WriteString("import Gotree.Model.C19Glue\n\nnamespace Gotree.Gen.C19Writes\nopen Gotree.C19.Glue\n\n")
+	b.WriteString("def writes : List OptWrite := [")
+	for i, w := range ws {
+		if i > 0 {
+			b.WriteString(",")
+		}
+		fmt.Fprintf(&b, "\n  ⟨%s, %s, %s, %s⟩", leanStr(w.Path), leanStr(w.GoVar), leanStr(w.File), leanStr(w.Rhs))
+	}
+	b.WriteString("]\n\n")
+	fmt.Fprintf(&b, "def problems : List String := [")
+	for i, p := range problems {
+		if i > 0 {
+			b.WriteString(", ")
+		}
+		b.WriteString(leanStr(p))
+	}
+	b.WriteString("]\n\nend Gotree.Gen.C19Writes\n")
+	p := filepath.Join(out, "C19Writes.lean")
 	if old, err := os.ReadFile(p); err == nil && string(old) == b.String() {
-		return nil // unchanged: keep the mtime so that lake does not rebuild
+		return nil
 	}
 	return os.WriteFile(p, []byte(b.String()), 0644)
 }
